@@ -291,6 +291,31 @@ Theorem sibling_tick_never_reaches : forall sh op pre c i j cid r,
 Proof. exact RefFacts.sibling_tick_never_reaches_l. Qed.
 Print Assumptions sibling_tick_never_reaches.
 
+(* ------------------------------------------------------------------ consumers in nested graphs *)
+(* Consumers that sit in their OWN nested graph (ops 3, 5; [wrapped op]: behind a nested
+   pass-through, where the re-bound export replays the new target's own, OLDER, modification
+   time as the schedule request) are woken through graph.cpp nested_schedule_node_impl: the
+   request time is clamped to the current time BEFORE the child's per-node slot is written, and
+   the child runs exactly the nodes whose slot equals the current time ([wake], [nested_slot]).
+   Every theorem above is stated for every op, so retarget_ticks_same_cycle already says that
+   the retarget wakes such a consumer in the retarget cycle; the three below isolate why. *)
+Theorem retarget_wakes_nested_consumer : forall op now when,
+  when <= now -> wake op now when = true.
+Proof. exact RefFacts.wake_true. Qed.
+Print Assumptions retarget_wakes_nested_consumer.
+
+(* ... at ANY nesting depth: one clamp per boundary crossed *)
+Theorem retarget_wakes_nested_consumer_at_any_depth : forall d when now,
+  when <= now -> Nat.iter (S d) (fun w => nested_slot w now) when = now.
+Proof. exact RefFacts.nested_slot_iter. Qed.
+Print Assumptions retarget_wakes_nested_consumer_at_any_depth.
+
+(* the clamp must come before the slot write: an unclamped older request time never matches the
+   exact-time evaluation loop (seeded change C13w3-clamp-after-child-slot-write) *)
+Theorem unclamped_slot_never_runs : forall when now, when < now -> (when =? now) = false.
+Proof. exact RefFacts.unclamped_slot_never_runs. Qed.
+Print Assumptions unclamped_slot_never_runs.
+
 (* ------------------------------------------------------------------ non-vacuity *)
 (* A history with: selection of A, ticks of A and B, a same-value selector tick, a
    retarget to B (valid, not ticking in that cycle), a tick of the unselected A. *)
@@ -337,12 +362,11 @@ Example ex_unsel_hyps :
     let r := mkR true false 2 [(1, 0); (2, 0); (3, 0)] [] [] in [(1%nat, r); (2%nat, r)].
 Proof. vm_compute. repeat split; reflexivity. Qed.
 
-(* consumers INSIDE a nested graph (op 3): the case file decodes to a forced first cycle
-   in which all consumers run (reading "invalid"); afterwards exactly as inlined *)
+(* consumers INSIDE a nested graph (op 3): exactly as inlined (since /repo ed827a0 the first
+   cycle of the nested graph no longer evaluates all its nodes) *)
 Example ex_nested_consumers :
   run_ref [[1; 1; 10; 0; 3]; [2; 0; 2; 1]; [2; 1; 2; 100]; [2; 2; 3; 200]; [2; 0; 4; 0]] =
-  [[20; 0; 1; 0; 0; 0; 0; 0; 0]; [20; 1; 1; 0; 0; 0; 0; 0; 0]; [20; 2; 1; 0; 0; 0; 0; 0; 0];
-   [21; 1; 2; 1; 1; 2; 1; 0; 100; 1; 0; 100; 0];
+  [[21; 1; 2; 1; 1; 2; 1; 0; 100; 1; 0; 100; 0];
    [20; 0; 2; 1; 1; 2; 1; 0; 100; 1; 0; 100; 0]; [20; 1; 2; 1; 1; 2; 1; 0; 100; 1; 0; 100; 0];
    [20; 3; 2; 1; 1; 2; 1; 0; 100; 1; 0; 100; 0]; [22; 2];
    [21; 2; 3; 1; 1; 3; 1; 0; 200; 1; 0; 200; 0];
@@ -354,8 +378,7 @@ Proof. vm_compute. reflexivity. Qed.
    runs the active consumers 0 and 3, which read modified = false *)
 Example ex_nested_ref_param :
   run_ref [[1; 1; 10; 0; 5]; [2; 0; 2; 1]; [2; 1; 2; 100]; [2; 7; 3; 1]; [2; 2; 4; 200]] =
-  [[20; 0; 1; 0; 0; 0; 0; 0; 0]; [20; 1; 1; 0; 0; 0; 0; 0; 0]; [20; 2; 1; 0; 0; 0; 0; 0; 0];
-   [21; 1; 2; 1; 1; 2; 1; 0; 100; 1; 0; 100; 0];
+  [[21; 1; 2; 1; 1; 2; 1; 0; 100; 1; 0; 100; 0];
    [20; 0; 2; 1; 1; 2; 1; 0; 100; 1; 0; 100; 0]; [20; 1; 2; 1; 1; 2; 1; 0; 100; 1; 0; 100; 0];
    [20; 3; 2; 1; 1; 2; 1; 0; 100; 1; 0; 100; 0]; [22; 2];
    [20; 0; 3; 1; 0; 2; 1; 0; 100; 0; 0]; [20; 1; 3; 1; 0; 2; 1; 0; 100; 0; 0];
@@ -407,6 +430,17 @@ Example ex_sibling_case_file :
    [20; 0; 3; 1; 1; 3; 1; 0; 200; 1; 0; 200; 0];
    [20; 0; 5; 1; 1; 5; 1; 0; 201; 1; 0; 201; 0]].
 Proof. vm_compute. reflexivity. Qed.
+
+(* wrapped (op 20: consumers in their own nested graph behind a nested pass-through): retarget to B,
+   which ticked earlier (t = 4) while unselected and is quiet in the retarget cycle t = 5: the
+   request time is B's old 4, the clamp makes it 5, the consumers run at 5 *)
+Example ex_wrapped_hyps :
+  wrapped 20 = true /\ in_nested 20 = true /\
+  tlmt (spec_tgt ShTS 1 (ex_pre ++ [ex_retarget])) = 4 /\ c_t ex_retarget = 5 /\
+  wake 20 5 4 = true /\ (4 =? 5) = false /\
+  o_cons (last_out ShTS 20 ex_pre ex_retarget) =
+    let r := mkR true true 5 [(0, 6)] [(0, 6)] [] in [(0%nat, r); (1%nat, r); (3%nat, r)].
+Proof. vm_compute. repeat split; reflexivity. Qed.
 
 (* the decoder meets the hypothesis of every theorem on a concrete case file, and the
    model prints the lines the driver prints for it (finding C13-stale-removed: key 1 is
